@@ -28,6 +28,7 @@ import (
 	"github.com/go-logr/logr"
 	corev1 "k8s.io/api/core/v1"
 	extv1 "k8s.io/apiextensions-apiserver/pkg/apis/apiextensions/v1"
+	kerrors "k8s.io/apimachinery/pkg/api/errors"
 	metav1 "k8s.io/apimachinery/pkg/apis/meta/v1"
 	"k8s.io/apimachinery/pkg/runtime"
 	"k8s.io/apimachinery/pkg/runtime/schema"
@@ -74,13 +75,15 @@ const (
 	revImage    = "xpkg.upbound.io/acme/provider-x:v1.0.0"
 	revOwnedCRD = "widgets.acme.example.org"
 
-	finClaim    = "finalizer.apiextensions.crossplane.io"
-	finXR       = "composite.apiextensions.crossplane.io"
-	finDefined  = "defined.apiextensions.crossplane.io"
-	finOffered  = "offered.apiextensions.crossplane.io"
-	finRevision = "revision.pkg.crossplane.io"
-	finUsage    = "usage.apiextensions.crossplane.io"
-	finProvider = "finalizer.managedresource.crossplane.io"
+	finClaim      = "finalizer.apiextensions.crossplane.io"
+	finXR         = "composite.apiextensions.crossplane.io"
+	finDefined    = "defined.apiextensions.crossplane.io"
+	finOffered    = "offered.apiextensions.crossplane.io"
+	finRevision   = "revision.pkg.crossplane.io"
+	finUsage      = "usage.apiextensions.crossplane.io"
+	finProvider   = "finalizer.managedresource.crossplane.io"
+	finCRDCleanup = "customresourcecleanup.apiextensions.k8s.io"
+	finCRDHold    = "example.org/crd-hold"
 
 	labelComposite = "crossplane.io/composite"
 	labelInUse     = "crossplane.io/in-use"
@@ -302,14 +305,15 @@ type world struct {
 	claimCreated []bool
 
 	// history bookkeeping (non-triviality, labels)
-	userDeletes           int
-	ctrlFinRemoved        map[string]int // finalizer -> removals by its controller
-	crdDeletes            int
-	effectiveStops        int
-	faultsHit             int
-	lastRun               *verifsim.Run
-	inactiveInLockDeletes int
-	midRan, midExcluded   int
+	userDeletes                int
+	ctrlFinRemoved             map[string]int // finalizer -> removals by its controller
+	crdDeletes                 int
+	effectiveStops             int
+	faultsHit                  int
+	lastRun                    *verifsim.Run
+	inactiveInLockDeletes      int
+	midRan, midExcluded        int
+	recTermCRD, recTermCRDLive int // XRD reconciles that found their CRD terminating but existing (and instances alive)
 
 	// Usage bookkeeping: the last using / used resource each Usage recorded in its resourceRefs
 	lastBy, lastOf map[verifsim.Key]verifsim.Key
@@ -423,6 +427,27 @@ func newWorld(u universe, rec *verifkit.Recorder) *world {
 		}
 		return true
 	}
+	// The API server's CRD lifecycle: every CRD carries the cleanup finalizer (so a deleted CRD lingers,
+	// terminating, until the apiserver's cleanup step has removed every instance), and while a CRD is
+	// terminating its kind is still served for reads, updates and deletes but refuses creates.
+	w.sim.AddAdmission(func(v *verifsim.View, op verifsim.Op) error {
+		if op.Verb != "create" {
+			return nil
+		}
+		if op.Key.GK() == crdGK && op.New != nil {
+			if m := verifsim.Meta(op.New); m != nil && !has(verifsim.Finalizers(op.New), finCRDCleanup) {
+				l, _ := m["finalizers"].([]any)
+				m["finalizers"] = append(l, finCRDCleanup)
+			}
+			return nil
+		}
+		for _, ck := range []verifsim.Key{xrCRDKey, claimCRDKey} {
+			if gk, _ := crdInstanceKind(v.Get(ck)); gk == op.Key.GK() && verifsim.Terminating(v.Get(ck)) {
+				return kerrors.NewMethodNotSupported(schema.GroupResource{Group: gk.Group, Resource: strings.ToLower(gk.Kind) + "s"}, "create (the CustomResourceDefinition is terminating)")
+			}
+		}
+		return nil
+	})
 	// The real index function of the Usage webhook/controller.
 	fm := &fakeMgr{c: w.sim.Client(actorSetup), scheme: w.sim.Scheme}
 	if err := usage.SetupWebhookWithManager(fm, xpcontroller.Options{Logger: logging.NewNopLogger()}); err != nil {
@@ -812,6 +837,72 @@ func (w *world) composedKeys(i int, tmpl string) []verifsim.Key {
 	return out
 }
 
+// crdInstanceKind returns the kind a CRD object defines.
+func crdInstanceKind(crd verifsim.Obj) (schema.GroupKind, bool) {
+	if crd == nil {
+		return schema.GroupKind{}, false
+	}
+	g, _ := verifsim.Nested(crd, "spec", "group").(string)
+	k, _ := verifsim.Nested(crd, "spec", "names", "kind").(string)
+	return schema.GroupKind{Group: g, Kind: k}, g != "" && k != ""
+}
+
+// crdCleanupStep is one step of the API server's CRD finalizer controller: for one terminating CRD
+// that still carries the cleanup finalizer it deletes the instances that are not yet terminating
+// (they go when their own finalizers are gone), or, if no instance is left, removes the finalizer.
+func (w *world) crdCleanupStep() bool {
+	c := w.sim.Client(actorAPI)
+	for _, k := range w.sim.Keys(crdGK) {
+		crd := w.sim.Get(k)
+		if !verifsim.Terminating(crd) || !has(verifsim.Finalizers(crd), finCRDCleanup) {
+			continue
+		}
+		gk, ok := crdInstanceKind(crd)
+		if !ok {
+			continue
+		}
+		inst := w.sim.Keys(gk)
+		did := false
+		for _, ik := range inst {
+			if o := w.sim.Get(ik); !verifsim.Terminating(o) {
+				if err := c.Delete(ctx, verifsim.U(o)); err == nil {
+					did = true
+				}
+			}
+		}
+		if did {
+			return true
+		}
+		if len(inst) > 0 {
+			continue // waiting for the instances' own finalizers
+		}
+		u := verifsim.U(crd)
+		var keep []string
+		for _, f := range u.GetFinalizers() {
+			if f != finCRDCleanup {
+				keep = append(keep, f)
+			}
+		}
+		u.SetFinalizers(keep)
+		if err := c.Update(ctx, u); err == nil {
+			return true
+		}
+	}
+	return false
+}
+
+// xrdRecClass classifies an XRD reconcile that is about to run (evidence labels).
+func (w *world) xrdRecClass(crdKey verifsim.Key, gk schema.GroupKind) {
+	xrd, crd := w.sim.Get(xrdKey), w.sim.Get(crdKey)
+	if xrd == nil || !verifsim.Terminating(xrd) || crd == nil || !verifsim.Terminating(crd) || verifsim.ControllerUID(crd) != w.xrdUID {
+		return
+	}
+	w.recTermCRD++
+	if len(w.sim.Keys(gk)) > 0 {
+		w.recTermCRDLive++
+	}
+}
+
 // resolve maps an object designator to the store keys it currently denotes.
 func (w *world) resolve(des string) []verifsim.Key {
 	var i int
@@ -821,6 +912,10 @@ func (w *world) resolve(des string) []verifsim.Key {
 		return []verifsim.Key{xrdKey}
 	case des == "rev":
 		return []verifsim.Key{revKey}
+	case des == "crd:xr":
+		return []verifsim.Key{xrCRDKey}
+	case des == "crd:claim":
+		return []verifsim.Key{claimCRDKey}
 	case strings.HasPrefix(des, "claim:"):
 		fmt.Sscanf(des, "claim:%d", &i)
 		if i < w.u.Claims {
@@ -861,6 +956,7 @@ func (w *world) designators() []string {
 	if w.u.Revision {
 		out = append(out, "rev")
 	}
+	out = append(out, "crd:xr", "crd:claim")
 	return out
 }
 
@@ -914,6 +1010,28 @@ type reconcileResult struct {
 
 // do performs one action and returns a short outcome string (for messages).
 func (w *world) do(a act) string {
+	out := w.doInner(a)
+	w.ensureCRDFinalizers()
+	return out
+}
+
+// ensureCRDFinalizers keeps the API server's cleanup finalizer on every live CRD. The real server puts it
+// there at the moment a CRD is deleted; here it is (re-)added right after any step that left a CRD
+// without it (the XRD controllers replace the whole CRD with an Update, which drops foreign finalizers),
+// so that whoever deletes a CRD next - a controller, a user, the garbage collector - finds it in place.
+func (w *world) ensureCRDFinalizers() {
+	for _, k := range w.sim.Keys(crdGK) {
+		o := w.sim.Get(k)
+		if verifsim.Terminating(o) || has(verifsim.Finalizers(o), finCRDCleanup) {
+			continue
+		}
+		u := verifsim.U(o)
+		u.SetFinalizers(append(u.GetFinalizers(), finCRDCleanup))
+		_ = w.sim.Client(actorAPI).Update(ctx, u)
+	}
+}
+
+func (w *world) doInner(a act) string {
 	utilrand.Seed(w.u.Seed + 7)
 	req := func(ns, name string) reconcile.Request {
 		return reconcile.Request{NamespacedName: types.NamespacedName{Namespace: ns, Name: name}}
@@ -1019,12 +1137,14 @@ func (w *world) do(a act) string {
 		_, err := w.env.Reconcile(run, k.Name)
 		return w.outcome(run, a, err)
 	case "rec-def":
+		w.xrdRecClass(xrCRDKey, xrGK)
 		run := w.newRun(actorDef, a)
 		r := definition.NewReconciler(definition.NewClientApplicator(w.interloped(run, a, xrGK)), definition.WithControllerEngine(w.eng), definition.WithRecorder(w.env.Recorder),
 			definition.WithOptions(apiextcontroller.Options{Options: xpcontroller.DefaultOptions()}))
 		_, err := r.Reconcile(ctx, req("", xrdName))
 		return w.outcome(run, a, err)
 	case "rec-off":
+		w.xrdRecClass(claimCRDKey, claimGK)
 		run := w.newRun(actorOff, a)
 		r := offered.NewReconciler(offered.NewClientApplicator(w.interloped(run, a, claimGK)), offered.WithControllerEngine(w.eng), offered.WithRecorder(w.env.Recorder),
 			offered.WithOptions(apiextcontroller.Options{Options: xpcontroller.DefaultOptions()}))
@@ -1143,6 +1263,35 @@ func (w *world) do(a act) string {
 		}
 		w.eng.running = map[string]bool{}
 		w.eng.calls = append(w.eng.calls, engineCall{Op: "ProcessRestart", Seq: w.sim.LogLen()})
+		return "ok"
+	case "crd-cleanup": // the API server's CRD finalizer controller
+		if w.crdCleanupStep() {
+			return "ok"
+		}
+		return "idle"
+	case "del-crd": // a user deletes a CRD out of band (Obj: xr | claim)
+		k := xrCRDKey
+		if a.Obj == "claim" {
+			k = claimCRDKey
+		}
+		if o := w.sim.Get(k); o == nil || verifsim.Terminating(o) {
+			return "idle"
+		}
+		return w.userDelete(k, schema.GroupVersionKind{Group: crdGK.Group, Version: "v1", Kind: crdGK.Kind}, a.FG)
+	case "addfin-crd": // a third party puts a finalizer of its own on a CRD (Obj: xr | claim)
+		k := xrCRDKey
+		if a.Obj == "claim" {
+			k = claimCRDKey
+		}
+		o := w.sim.Get(k)
+		if o == nil || verifsim.Terminating(o) || has(verifsim.Finalizers(o), finCRDHold) {
+			return "idle"
+		}
+		u := verifsim.U(o)
+		u.SetFinalizers(append(u.GetFinalizers(), finCRDHold))
+		if err := w.sim.Client(actorThird).Update(ctx, u); err != nil {
+			return "refused: " + err.Error()
+		}
 		return "ok"
 	case "unresolve-usage":
 		// A user clears the recorded reference(s) of the composed Usage so that the selector is resolved
